@@ -549,3 +549,6 @@ func RaceBuild() bool { return os.Getenv("VERIF_RACE_BUILD") == "1" }
 // RaceSlice: the thorough tier re-runs a slice of a network workload under -race;
 // that run must not overwrite the evidence of the main run.
 func RaceSlice() bool { return os.Getenv("VERIF_RACE_SLICE") == "1" }
+
+// AddEvals adds n evaluated cases that were run (and counted) in child processes.
+func (r *Run) AddEvals(n int64) { atomic.AddInt64(&r.evals, n) }
